@@ -17,6 +17,8 @@ type ProgCase struct {
 	Steps []ProgStep `json:"steps"`
 	// options of the comparison
 	Budget int `json:"budget,omitempty"`
+	// Independent: the steps do not change state, so an inconclusive step does not end the case
+	Independent bool `json:"independent,omitempty"`
 }
 
 type ProgStep struct {
@@ -260,8 +262,11 @@ func RunProgOn(im *Impl, pc *ProgCase) (results []StepResult, firstDiff int, inc
 			}
 			if r.RefState == "unsupported" || (r.RefState == "budget" && implMax == 0) {
 				r.Verdict = "inconclusive"
-				inconclusive = true
 				results = append(results, r)
+				if pc.Independent {
+					continue
+				}
+				inconclusive = true
 				return // later steps would start from an unknown state
 			}
 			if st.Norm != "" {
